@@ -6,7 +6,7 @@ func init() {
 
 // C06: functions and scopes.
 func checkC06(c *Check) {
-	c.rule = "MC_Scope: 22 function templates (parameter assigned, local + global write, loop variables, loop variable named like the parameter / like a local, recursion reading its parameter after the recursive call, nested calls with the same parameter name, return from two nested loops, return from a switch in a while, no return, wrong argument count, unknown function, user function named like a built-in, recursion out of a loop, assignment to a non-local name, function defined twice, a function defined inside a function at the end and in the middle of the outer body, a second function reading the names the first one bound, a loop after the call assigning them, too many arguments, no arguments) x parameter/local/loop names drawn from {x, y, p} where x and y are globals of the caller x 6 call places (top level, inside foreach x, inside foreach i,y, inside while, inside if, inside another function with parameter x) (thorough: names from {x, y, p, g} where g is a global written by callees, and every call place inside every call place) x definition before/after use; each run twice; result, t() calls, all names read back and every variable compared; open scopes must be 0 after every run; non-trivial = expectation is a value or ERR"
+	c.rule = "MC_Scope: 23 function templates (parameter assigned, local + global write, loop variables, loop variable named like the parameter / like a local, recursion reading its parameter after the recursive call, nested calls with the same parameter name, return from two nested loops, return from a switch in a while, no return, wrong argument count, unknown function, user function named like a built-in, recursion out of a loop, assignment to a non-local name, function defined twice, a function defined inside a function at the end and in the middle of the outer body, a second function reading the names the first one bound, a loop after the call assigning them, too many arguments, no arguments, recursion whose every level assigns its own local and parameter from inside a loop) x parameter/local/loop names drawn from {x, y, p} where x and y are globals of the caller x 6 call places (top level, inside foreach x, inside foreach i,y, inside while, inside if, inside another function with parameter x) (thorough: names from {x, y, p, g} where g is a global written by callees, and every call place inside every call place) x definition before/after use; each run twice; result, t() calls, all names read back and every variable compared; open scopes must be 0 after every run; non-trivial = expectation is a value or ERR"
 	c.assumptions = []string{"assignment writes the innermost scope that already binds the name, else the globals (EFSemantics)", "a callee assigning a name bound by an enclosing scope of its caller is not generated"}
 	tc := &traceCollector{every: 3, max: 3000000}
 	runRows(c, "MC_Scope", stdCfg(c.Tier, "Specified", "Errors"), func(row *Row) {
